@@ -338,6 +338,7 @@ def run_check(pid, tier, seed, replay, t0):
         sample = rs.sample(routed, min(len(routed), 150 if tier == "quick" else 600))
         sample_ids = set(c[0] for c in sample)
         model_keep = {}
+        spec_keep = {}
         by_id = {c[0]: c for c in cases}
         impl_keep = {} if noalloc else None      # C19 compares every raw line with the default build's
         def consume(model, impl, spectr):
@@ -351,6 +352,7 @@ def run_check(pid, tier, seed, replay, t0):
                 ml = model.get(cid)
                 if cid in sample_ids and ml is not None:
                     model_keep[cid] = ml
+                    spec_keep[cid] = spectr.get(cid) or []
                 if impl_keep is not None and il is not None:
                     impl_keep[cid] = [l.get("_raw") for l in il if "_raw" in l]
                 seen_ids.add(cid)
@@ -397,7 +399,7 @@ def run_check(pid, tier, seed, replay, t0):
                                  cfg=c[1], steps=c[2], family=c[3], cid=cid))
         # the extracted model binary against the kernel's own evaluation of the same definitions
         lines = ["%s %s ; %s" % (c[0], gen.cfg_head(c[1]) , " ; ".join(c[2])) for c in sample if c[0] in model_keep]
-        ncc, ccbad = coqterm.crosscheck(lines, model_keep, os.path.join(work, "coq"), pid) if lines else (0, [])
+        ncc, ccbad = coqterm.crosscheck(lines, model_keep, os.path.join(work, "coq"), pid, spec_traces=spec_keep) if lines else (0, [])
         if ccbad:
             raise core.ToolBroken("extracted model and in-Coq evaluation disagree (extraction / driver defect): " + repr(ccbad[:2]))
         cc_count[0] = ncc
